@@ -3,7 +3,7 @@
    Shape: for ALL tables with `consistent tb = true` and every argument in range, the model of the Go query
    (C09Model.v) returns Ok of the value the naive per-sample expansion (C09Spec.v) defines. *)
 From V.lib Require Import Base.
-From V.c09 Require Import C09Model C09Spec C09BaseProofs C09SttsProofs C09CttsProofs C09StscProofs C09TrakProofs C09TimeProofs.
+From V.c09 Require Import C09Model C09Spec C09BaseProofs C09SttsProofs C09CttsProofs C09StscProofs C09TrakProofs C09TimeProofs C09CacheProofs.
 
 (* a concrete non-trivial consistent table set: 7 samples, 3 stts runs, ctts, 2 stsc entries over 3 chunks,
    explicit sizes, stco, stss, sdtp *)
@@ -126,3 +126,31 @@ Theorem C09_sample_data_refuted : forall tb a b, 2 <= a -> a <= b -> b <= trak_n
   trak_get_sample_data_pinned tb a b = Panic.
 Proof. exact sample_data_pinned_panics. Qed.
 Print Assumptions C09_sample_data_refuted.
+
+(* StscEntry.FirstSampleNr as computed by DecodeStscSR and by repeated AddEntry = the naive recurrence *)
+Example ex_raw_ok : raw_ok [(1, 2, 1); (3, 3, 2); (7, 1, 1)] = true /\
+                    map first_sample (S_entries [(1, 2, 1); (3, 3, 2); (7, 1, 1)]) = [1; 5; 17].
+Proof. vm_compute. split; reflexivity. Qed.
+Theorem C09_first_sample_nr_cache : forall raw, raw_ok raw = true ->
+  (exists b, stsc_decode raw = Ok b /\ sc_entries b = S_entries raw) /\
+  (match raw with [] => True | (fc, _, _) :: _ => fc = 1 end ->
+   exists b, stsc_add_entries (mkStsc [] 0 []) raw = Ok b /\ sc_entries b = S_entries raw).
+Proof. exact first_sample_nr_cache. Qed.
+Print Assumptions C09_first_sample_nr_cache.
+
+(* StscBox.GetSampleDescriptionID (repaired text, af784a4): the id of the stsc run the chunk belongs to *)
+Theorem C09_sample_description_id : forall tb, consistent tb = true -> forall c, 1 <= c <= nchunks tb ->
+  exists id, S_sample_description_id tb c = Some id /\ stsc_get_sample_description_id (t_stsc tb) c = Ok id.
+Proof. exact sample_description_id_correct. Qed.
+Print Assumptions C09_sample_description_id.
+
+(* the pinned text indexed the per-entry ids with the chunk number: wrong id for chunk 2, panic for chunk 3 *)
+Definition sd_tb : tables :=
+  mkTables [6] [10] None (mkStsc [mkEntry 1 2 1; mkEntry 3 1 5] 0 [1; 2]) (mkStsz 0 6 [1; 2; 3; 4; 5; 6])
+           (Some [100; 200; 300; 400]) None None None.
+Theorem C09_sample_description_id_refuted :
+  consistent sd_tb = true /\
+  S_sample_description_id sd_tb 2 = Some 1 /\ stsc_get_sample_description_id_pinned (t_stsc sd_tb) 2 = Ok 2 /\
+  S_sample_description_id sd_tb 3 = Some 2 /\ stsc_get_sample_description_id_pinned (t_stsc sd_tb) 3 = Panic.
+Proof. vm_compute. repeat split. Qed.
+Print Assumptions C09_sample_description_id_refuted.
